@@ -57,7 +57,7 @@ def check_alphabet(ctx, A, table, payload):
 
 
 def run(ctx):
-    sf = env.load_selfies()
+    sf = env.varied(env.load_selfies(), ctx)
     hooks.attach_m1()
     hooks.attach_m2(table_fn=sf.get_semantic_constraints)
     hooks.attach_m3(use_icontract=True)   # the derivation contracts as icontract post-conditions
@@ -69,7 +69,7 @@ def run(ctx):
         flagged = rng.random() < 0.08
         if flagged:
             t[rng.choice(["C+0", "N+01", "O-0", "S+²", "Fe+00", "C-007"])] = rng.choice([1, 2, 3])
-        passed = dict(t)
+        passed = tablegen.as_caller_dict(t, rng)
         try:
             sf.set_semantic_constraints(passed)
         except ValueError:
